@@ -149,7 +149,9 @@ func TestC12(t *testing.T) {
 		}
 		vals := map[string]model.AV{":v": model.Num(b), ":w": model.Num(other)}
 		expr := rapid.SampledFrom([]string{"SET n = n + :v", "SET n = n - :v", "SET r = :v + :w", "SET r = :w - :v", "ADD n :v", "ADD fresh :v",
-			"SET m.k = m.k + :v", "SET r = if_not_exists(zz, :v) + n", "ADD ns :s", "DELETE ns :s", "SET r = :v"}).Draw(rt, "expr")
+			"SET m.k = m.k + :v", "SET r = if_not_exists(zz, :v) + n", "ADD ns :s", "DELETE ns :s", "SET r = :v",
+			// a copy taken before the number it was copied from changes in the same update
+			"SET r = n ADD n :v", "SET r = if_not_exists(zz, n) ADD n :v", "SET r = m ADD m.k :v", "SET r = keep, keep = keep + :v"}).Draw(rt, "expr")
 		if expr == "ADD ns :s" || expr == "DELETE ns :s" {
 			vals[":s"] = model.NumSet(sameValue(rt, item["ns"].SS[0]))
 		}
